@@ -266,8 +266,8 @@ type StepResult struct {
 	Err     string
 	Panic   string
 	Crashed bool
-	First   int // index of the step's first event
-	Last    int // index after its last event
+	First   int    // index of the step's first event
+	Last    int    // index after its last event
 	Calls   []Call `json:"-"` // node calls of the step (non-interleaved steps only)
 }
 
